@@ -377,6 +377,20 @@ class Interp:
         k = rtypes.find_top(c, ': ') if hasattr(rtypes, 'find_top') else -1
         if k >= 0:
             name = c[:k]
+        mnum = re.match(r'^(?:(?:core|std)::num::<impl ([ui](?:8|16|32|64|128|size))>|([ui](?:8|16|32|64|128|size)))::(MAX|MIN|BITS)$', name.strip())
+        if mnum:
+            class _M:
+                def __init__(s, a, b): s.a = a; s.b = b
+                def group(s, i): return s.a if i == 1 else s.b
+            mnum = _M(mnum.group(1) or mnum.group(2), mnum.group(3))
+        if mnum:
+            bits = {'size': 64}.get(mnum.group(1)[1:]) or int(mnum.group(1)[1:])
+            signed = mnum.group(1)[0] == 'i'
+            if mnum.group(2) == 'BITS':
+                return bits
+            if mnum.group(2) == 'MAX':
+                return (1 << (bits - 1)) - 1 if signed else (1 << bits) - 1
+            return ((1 << (bits - 1)) if signed else 0)          # MIN of a signed type in two's complement representation
         name = strip_generics_text(name)
         ov = getattr(self, 'const_override', None)
         if ov and name.split('::')[-1] in ov:
